@@ -42,6 +42,11 @@ pub struct Scenario {
     pub case: StreamCase,
     pub hostile: bool,
     pub passes: Vec<Pass>,
+    /// supplementary, non-replayable leg: real threads hammering one tracker near its limit
+    /// (threads, ops per thread, budget in bytes, PRNG seed); the oracle (granted <= budget) is
+    /// deterministic, the interleaving is whatever the machine does
+    #[serde(default)]
+    pub tracker_stress: Option<(usize, usize, usize, u64)>,
 }
 
 const AMPLE: usize = 1 << 31;
@@ -78,6 +83,8 @@ fn ops_for(rng: &mut Rng, sched: &ChunkSchedule, with_budget_ops: bool, allow_re
 pub fn generate(seed: u64, tier: Tier) -> Scenario {
     let mut rng = Rng::new(derive(seed, 13, 0));
     let cfg = if rng.chance(1, 5) { GenConfig::medium() } else { GenConfig::small() }.swarm(&mut rng);
+    let mut cfg = cfg;
+    cfg.vardct = rng.chance(1, 3);
     let mut case = valid_stream(&mut rng, &cfg, if tier == Tier::Quick { 4000 } else { 800 }, 25);
     let hostile = rng.chance(1, 4);
     if hostile {
@@ -106,10 +113,11 @@ pub fn generate(seed: u64, tier: Tier) -> Scenario {
         };
         let with_budget_ops = !matches!(budget, Budget::FailFrom(_));
         // region requests on multi-frame images hit known finding F15 (C06: region-of-interest + blending); keep C13 clear of it
-        let allow_region = case.shape.starts_with("f1-") && !hostile;
+        let allow_region = case.shape.starts_with("f1-") && !hostile && !case.shape.contains("crop");
         passes.push(Pass { budget, ops: ops_for(&mut rng, &sched, with_budget_ops, allow_region) });
     }
-    Scenario { case, hostile, passes }
+    let tracker_stress = rng.chance(1, 8).then(|| (rng.usize_in(2, 6), 4000, *rng.pick(&[1000usize, 4096, 100_000]), rng.next_u64()));
+    Scenario { case, hostile, passes, tracker_stress }
 }
 
 pub fn digest(sc: &Scenario) -> u64 {
@@ -120,6 +128,7 @@ pub fn digest(sc: &Scenario) -> u64 {
 }
 
 fn viol(seed: u64, sc: &Scenario, class: String, detail: String) -> Violation {
+    let class = if sc.case.has_vardct && !class.starts_with("panic:") { format!("{class}+vardct") } else { class };
     Violation { property: "C13".into(), check: "c13".into(), class, detail, seed, scenario: serde_json::to_value(sc).unwrap() }
 }
 
@@ -263,6 +272,44 @@ fn run_pass(bytes: &[u8], ops: &[Op], limit: usize, fail_from: usize, stats: &mu
     Ok(out)
 }
 
+/// Real threads allocate and release random sizes on one tracker whose budget fits only one or
+/// two requests at a time. `granted` is incremented after a successful alloc and decremented
+/// before the handle is dropped, so it never exceeds what the tracker really has outstanding:
+/// `granted > budget` can only mean the tracker handed out more than its limit.
+fn tracker_stress(threads: usize, ops: usize, budget: usize, seed: u64) -> Result<(), String> {
+    use std::sync::atomic::{AtomicUsize, Ordering};
+    let tracker = AllocTracker::with_limit(budget);
+    let granted = AtomicUsize::new(0);
+    let worst = AtomicUsize::new(0);
+    std::thread::scope(|s| {
+        for t in 0..threads {
+            let tracker = tracker.clone();
+            let (granted, worst) = (&granted, &worst);
+            s.spawn(move || {
+                let mut rng = Rng::new(seed ^ (t as u64) << 32);
+                for _ in 0..ops {
+                    let n = budget * 6 / 10 + rng.below((budget / 10).max(1) as u64) as usize;
+                    if let Ok(h) = tracker.alloc::<u8>(n) {
+                        let now = granted.fetch_add(n, Ordering::SeqCst) + n;
+                        worst.fetch_max(now, Ordering::SeqCst);
+                        std::hint::spin_loop();
+                        granted.fetch_sub(n, Ordering::SeqCst);
+                        drop(h);
+                    }
+                }
+            });
+        }
+    });
+    let w = worst.load(Ordering::SeqCst);
+    if w > budget {
+        return Err(format!("{threads} threads on a {budget}-byte budget: {w} bytes were granted at once"));
+    }
+    if tracker.shrink_limit(budget).is_err() || tracker.alloc::<u8>(1).is_ok() {
+        return Err(format!("budget not restored exactly after the concurrent workload (bytes_left = {})", tracker.verif_bytes_left()));
+    }
+    Ok(())
+}
+
 pub fn execute(seed: u64, sc: &Scenario, stats: &mut Stats) -> Result<(), Violation> {
     stats.evaluations += 1;
     let bytes = &sc.case.bytes;
@@ -302,6 +349,13 @@ pub fn execute(seed: u64, sc: &Scenario, stats: &mut Stats) -> Result<(), Violat
             }
         }
     }
+    if let Some((threads, ops, budget, sseed)) = sc.tracker_stress {
+        crate::harness::heartbeat("c13-tracker-stress");
+        if let Err(d) = tracker_stress(threads, ops, budget, sseed) {
+            return Err(viol(seed, sc, "limit_exceeded:concurrent_alloc".into(), d));
+        }
+        stats.fault("concurrent_alloc_near_limit");
+    }
     stats.sample(serde_json::json!({
         "shape": sc.case.shape, "len": bytes.len(), "hostile": sc.hostile, "fault_free_allocs": reference.allocs, "fault_free_peak": reference.peak,
         "passes": sc.passes.iter().map(|p| format!("{:?} / {} ops", p.budget, p.ops.len())).collect::<Vec<_>>(),
@@ -311,6 +365,18 @@ pub fn execute(seed: u64, sc: &Scenario, stats: &mut Stats) -> Result<(), Violat
 
 pub fn minimise(sc: &Scenario, still: &dyn Fn(&Scenario) -> bool) -> Scenario {
     let mut best = sc.clone();
+    {
+        let mut c = best.clone();
+        c.passes.clear();
+        if still(&c) {
+            return c;
+        }
+        let mut c = best.clone();
+        c.tracker_stress = None;
+        if still(&c) {
+            best = c;
+        }
+    }
     // single pass
     for i in 0..best.passes.len() {
         let mut c = best.clone();
